@@ -98,6 +98,12 @@ func drawValue(t *rapid.T, w *wireType, kind string) (sszObj, bool) {
 		return obj, w.fill(t, obj, kind)
 	}
 	m := genMode{field: -1}
+	if kind == "allmax" {
+		if len(limitDims(obj)) == 0 {
+			return obj, false
+		}
+		return obj, fillValue(t, obj, genMode{field: -1, kind: "allmax"})
+	}
 	if kind != "" {
 		ld := limitDims(obj)
 		if len(ld) == 0 {
@@ -132,7 +138,7 @@ func genC14Value(name string) func(t *rapid.T) c14Value {
 
 func genC14ValueOf(t *rapid.T, name string) c14Value {
 	w := wireByName[name]
-	kind := rapid.SampledFrom([]string{"", "", "", "limit", "over"}).Draw(t, "kind")
+	kind := rapid.SampledFrom([]string{"", "", "", "", "", "limit", "limit", "over", "over", "allmax"}).Draw(t, "kind")
 	if kind == "over" && !w.hasOver {
 		kind = ""
 	}
@@ -188,6 +194,9 @@ func runC14Value(p c14Value, c *stats.Case) error {
 	}
 	if p.Kind == "limit" {
 		c.NT("at-limit")
+	}
+	if p.Kind == "allmax" {
+		c.NT("all-dimensions-at-limit:" + p.Type)
 	}
 	if err != nil {
 		return fmt.Errorf("%s: in-limit value fails to encode: %v", p.Type, err)
